@@ -107,9 +107,16 @@ def work(job):
     return out
 
 
+# query series against one shared context: a failing predicate, predicates that select nothing / something / several in a row
 REPLAY = {
-    "eval_filter_expr": {"op": "queries", "doc": "<r><a/><a/></r>", "exprs": ["(//a)[$x]", "position()", "last()"]},
-    "eval_axis_node_test": {"op": "queries", "doc": "<r><a/><a/></r>", "exprs": ["//a[$x]", "position()", "last()"]},
+    "eval_filter_expr": [{"op": "queries", "doc": "<r><a/><a/></r>", "exprs": ["(//a)[$x]", "position()", "last()"]},
+                         {"op": "queries", "doc": "<r><a/><a/></r>", "exprs": ["(//a)[@none]", "position()", "last()"]},
+                         {"op": "queries", "doc": "<r><a/><a/></r>", "exprs": ["(//a)[1][1]", "position()", "last()"]},
+                         {"op": "queries", "doc": "<r><a/><a/></r>", "exprs": ["(//a)[@none][1]", "position()", "last()"]}],
+    "eval_axis_node_test": [{"op": "queries", "doc": "<r><a/><a/></r>", "exprs": ["//a[$x]", "position()", "last()"]},
+                            {"op": "queries", "doc": "<r><a/><a/></r>", "exprs": ["/r/a[@none]", "position()", "last()"]},
+                            {"op": "queries", "doc": "<r><a/><a/></r>", "exprs": ["/r/a[1][1]", "position()", "last()"]},
+                            {"op": "queries", "doc": "<r><a/><a/></r>", "exprs": ["/r/a[@none][1]", "position()", "last()"]}],
 }
 
 
@@ -164,13 +171,18 @@ def main():
             rep.obligation(oid, "holds", reach="sat" if res["paths"] else "unsat", paths=res["paths"], error_paths=res.get("error_paths"), wall_s=round(res["wall"], 2))
             continue
         w = res["witness"]
-        rr = rp.run(REPLAY[target])
-        rep.replays += 1
+        rr, used = None, None
+        for series in REPLAY[target]:
+            rr = rp.run(series)
+            rep.replays += 1
+            used = series
+            if dirty(rr):
+                break
         if dirty(rr):
             rep.obligation(oid, "violated", witness=w)
             if target not in reported:
                 reported.add(target)
-                case = dict(REPLAY[target])
+                case = dict(used)
                 case["property"] = "C19"
                 rep.violation(oid, case, "%s returns with the context stacks changed (%s); with one shared context the queries %s answer %s, with fresh contexts %s" % (
                     target, w, case["exprs"], rr.get("shared"), rr.get("fresh")))
